@@ -3,6 +3,7 @@ mod diskfmt;
 mod engine;
 mod gen;
 mod props;
+mod rec;
 mod shim;
 mod store;
 
